@@ -177,7 +177,9 @@ def _case_excerpts(case, ctx):
     ctx.sample(case, every=1009)
     data = np.arange(n)
     if k >= 2 and n >= 1:
-        r = call(lambda: list(excerpts(n, n_excerpts=k, excerpt_size=size)))
+        # the length may be carried by a NumPy integer (signed or unsigned), e.g. derived from a uint64 array
+        n_arg = [n, np.int64(n), np.uint64(n), np.int32(n)][(n + k + size) % 4]
+        r = call(lambda: list(excerpts(n_arg, n_excerpts=k, excerpt_size=size)))
         if not r.ok:
             ctx.violation('raised', case, 'excerpts raised %r' % r.exc, tb=r.tb)
         else:
@@ -286,6 +288,22 @@ def _case_flat_reader(case, ctx):
 
 def _check_iter(rd, A, case, ctx, cache):
     n = A.shape[0]
+    # history on one reader object: an abandoned pass, then a complete pass, then a pass on a derived reader;
+    # every complete pass must tile the recording
+    def abandoned():
+        for _ in rd.iter_chunks(cache=False):
+            break
+    call(abandoned)
+    r0 = call(lambda: [(int(a), int(b)) for a, b in rd.iter_chunks(cache=cache)])
+    if r0.ok and _tiles(r0.value, n):
+        ctx.violation('iter_chunks_not_tiling', case, 'pass after an abandoned pass: %s: %s' % (_tiles(r0.value, n), r0.value),
+                      {'repeat': True})
+        return
+    rc = call(lambda: [(int(a), int(b)) for a, b in (rd + 1).iter_chunks(cache=False)])
+    if rc.ok and _tiles(rc.value, n):
+        ctx.violation('iter_chunks_not_tiling', case, 'pass on a derived reader after earlier passes: %s: %s' % (
+            _tiles(rc.value, n), rc.value), {'repeat': True})
+        return
     r = call(lambda: [(int(a), int(b)) for a, b in rd.iter_chunks(cache=cache)])
     if not r.ok:
         ctx.violation('raised', case, 'iter_chunks raised %r' % r.exc, tb=r.tb)
